@@ -223,6 +223,52 @@ func driveC17(t *testing.T, out *vEmitter) {
 						}
 					}
 					out.Stat("requests", 1)
+					// ---- the forwarded raw query against the model (regexp substitution and url.ParseQuery/Encode are oracles) ----
+					if hit != nil || (res.Status == 500 && hit == nil) {
+						rewritten := vNone
+						reenc := vNone
+						matched := false
+						if hit != nil {
+							for _, u := range set {
+								if u.id == hit.id && u.rewrite != "" {
+									matched = true
+									nu := regexp.MustCompile(u.path).ReplaceAllString(req.URL.Path, u.rewrite)
+									rewritten = vSome(vS(nu))
+									if i := strings.Index(nu, "?"); i >= 0 {
+										if vals, err := url.ParseQuery(nu[i+1:]); err == nil {
+											reenc = vSome(vS(vals.Encode()))
+										}
+									}
+								}
+							}
+						} else {
+							for _, u := range set {
+								if u.rewrite == "" {
+									continue
+								}
+								if re := regexp.MustCompile(u.path); re.MatchString(req.URL.Path) && !matched {
+									nu := re.ReplaceAllString(req.URL.Path, u.rewrite)
+									if i := strings.Index(nu, "?"); i >= 0 {
+										if _, err := url.ParseQuery(nu[i+1:]); err != nil {
+											matched = true
+											rewritten = vSome(vS(nu))
+										}
+									}
+								}
+							}
+						}
+						if hit != nil || matched {
+							impl := vNone
+							if hit != nil {
+								gq := ""
+								if i := strings.Index(hit.requestURI, "?"); i >= 0 {
+									gq = hit.requestURI[i+1:]
+								}
+								impl = vSome(vS(gq))
+							}
+							out.Case("query", true, impl, vL("forwarded_query", reenc, rewritten, vS(req.URL.RawQuery)))
+						}
+					}
 					// ---- oracle: independent best-match computation over the CONFIGURED set ----
 					want := ""
 					bestLen := -1
